@@ -40,7 +40,11 @@ def evaluate(ctx, aug, impl, model, oracle, name_of_corr):
             note = "the call %s" % ("panicked" if t[1] == "panic" else "did not return (hang)")
             m = model[aug.index(a)] if False else None
         else:
-            note = oracle(a, i)
+            try:
+                note = oracle(a, i)
+            except Exception as e:      # a case line the oracle cannot read must not take the whole check down
+                ctx.notes.append("oracle could not judge case %s: %r" % (a.split()[1] if len(a.split()) > 1 else "?", e))
+                note = None
         if note and note.startswith("CORR:"):
             corr.append((a, i, note[5:].strip()))
             continue
